@@ -373,18 +373,36 @@ pub fn check_against_state(
     bytes: &[u8],
     define_components: bool,
 ) -> Vec<(&'static str, String)> {
-    let mut bad = Vec::new();
-    let want = &want_state["comp"];
-    if !want.is_object() {
-        return bad;
-    }
+    let variants = match want_state["comps"].as_array() {
+        Some(v) if !v.is_empty() => v,
+        _ => return Vec::new(),
+    };
     let d = match decode(bytes, &lib.sigs) {
         Ok(d) => d,
         Err(e) => {
-            bad.push(("wiring", format!("output cannot be decoded: {e}")));
-            return bad;
+            return vec![("wiring", format!("output cannot be decoded: {e}"))];
         }
     };
+    // the output must be one of the abstract components the contract allows
+    let mut first = None;
+    for want in variants {
+        let bad = check_variant(lib, m, want, &d, define_components);
+        if bad.is_empty() {
+            return bad;
+        }
+        first.get_or_insert(bad);
+    }
+    first.unwrap_or_default()
+}
+
+fn check_variant(
+    lib: &Lib,
+    m: &Machine,
+    want: &Value,
+    d: &Decoded,
+    define_components: bool,
+) -> Vec<(&'static str, String)> {
+    let mut bad = Vec::new();
     let sha_to_pkg: BTreeMap<String, String> = lib
         .pkgs
         .iter()
@@ -480,13 +498,21 @@ pub fn check_against_state(
     }
     // export kinds: the kind of the designated item
     let g = &m.world.graph;
+    let want_kinds: BTreeMap<String, Value> = want["exports"]
+        .as_array()
+        .unwrap()
+        .iter()
+        .map(|x| (x["name"].as_str().unwrap().to_string(), norm_kind(&x["kind"])))
+        .collect();
     for (name, _, _, kind) in &d.exports {
-        if let Some(node) = g.get_export(name) {
-            let mut want_kind = m.world.kmap.kind(g.types(), g[node].item_kind());
+        if let Some(want_kind) = want_kinds.get(name) {
+            let mut want_kind = want_kind.clone();
             if want_kind["c"] == "type" {
-                // compare definitions structurally
-                if let wac_types::ItemKind::Type(wac_types::Type::Value(v)) = g[node].item_kind() {
-                    want_kind = json!({"c": "type", "desc": crate::describe::value_desc(g.types(), v)});
+                // definitions are compared structurally: the harness created the definable types
+                if let Some(wac_types::Type::Value(v)) =
+                    m.world.def_types.get(want_kind["id"].as_str().unwrap_or(""))
+                {
+                    want_kind = json!({"c": "type", "desc": crate::describe::value_desc(g.types(), *v)});
                 }
             }
             if &want_kind != kind {
